@@ -111,6 +111,41 @@ class PairingCurve:
                     return cand
         return None
 
+    def fp2_cbrt(self, a):
+        """One cube root of a in F2 = Fp[i]/(i^2+1), or None.  |F2*| = p^2 - 1 = 3^s t; the 3-Sylow part
+        is solved by a brute-force discrete logarithm (s is 2 for both curves)."""
+        F = self.F2
+        a = F.el(a)
+        if F.is_zero(a):
+            return F.zero
+        n = self.p * self.p - 1
+        if n % 3:
+            return F.pow(a, pow(3, -1, n))
+        if F.pow(a, n // 3) != F.one:
+            return None
+        s, t = 0, n
+        while t % 3 == 0:
+            s, t = s + 1, t // 3
+        k = 1
+        while True:
+            c = (k, 1)
+            if F.pow(c, n // 3) != F.one:
+                break
+            k += 1
+        g = F.pow(c, t)
+        e = pow(3, -1, t)
+        m = (3 * e - 1) // t
+        at = F.pow(a, t)
+        g3 = F.pow(g, 3)
+        gj, j = F.one, 0
+        while gj != at:
+            gj, j = F.mul(gj, g3), j + 1
+            if j > 3 ** s:
+                raise AssertionError("cube root: discrete log failed")
+        root = F.mul(F.pow(a, e), F.pow(g, -(j * m) % (3 ** s * 3)))
+        assert F.mul(F.mul(root, root), root) == a
+        return root
+
     def sqrt(self, g, a):
         return self.F1.sqrt(a) if g == "G1" else self.fp2_sqrt(a)
 
